@@ -424,6 +424,10 @@ func printSEINALus(w io.Writer, seiNALUs [][]byte, codec string, seiLevel int, a
 			if seiLevel >= 2 {
 				fmt.Fprintf(w, "  SEI raw: %s\n", hex.EncodeToString(seiNALU))
 			}
+			if len(seiNALU) < hdrLen {
+				fmt.Fprintf(w, "  SEI: Got error \"NAL unit of %d bytes is shorter than its %d-byte header\"\n", len(seiNALU), hdrLen)
+				continue
+			}
 			seiBytes := seiNALU[hdrLen:]
 			buf := bytes.NewReader(seiBytes)
 			seiDatas, err := sei.ExtractSEIData(buf)
